@@ -241,6 +241,19 @@ class Runtime:
                 H.props[name] = Native('template:' + name, wrap)
         return H
 
+    def load_groups(self, groups_src, main):
+        """evaluate the all-templates bundle `(()=>{var G={};...;return G})()` and return the template table of `main`"""
+        g = self.globals()
+        val, _ = self.it.run_program(strip_wxs_loader(groups_src), g)
+        if not isinstance(val, JObj) or main not in val.props:
+            raise JsUnsupported('group bundle has an unexpected shape')
+        t = val.props[main]
+        if not isinstance(t, JObj) or '_' not in t.props:
+            raise JsUnsupported('template object has an unexpected shape')
+        H = t.props['_']
+        self.template_calls = []
+        return H
+
     def run(self, H, name='', data=None, tree=None):
         tmpl = H.props.get(name)
         if not isinstance(tmpl, (Closure, Native)):
